@@ -294,11 +294,11 @@ def check_sequence(case: Dict[str, Any]) -> Outcome:
     out = Outcome()
     wk = Worker(backend == "fallback", True)
     try:
-        rs = wk.request({"op": "validate", "cases": [(t, "validate", w) for t, w in case["seq"]]})
+        rs = wk.request({"op": "validate", "cases": [(e[0], e[2] if len(e) > 2 else "validate", e[1]) for e in case["seq"]]})
     finally:
         wk.close()
     nt = False
-    for (t, w), r in zip(case["seq"], rs):
+    for (t, w), r in zip([(e[0], e[1]) for e in case["seq"]], rs):
         o = Outcome()
         oracle_a(o, t, w, backend, r)
         nt = nt or o.nontrivial
@@ -307,7 +307,7 @@ def check_sequence(case: Dict[str, Any]) -> Outcome:
         if o.failures:
             break
     out.nontrivial = nt
-    out.classes = (f"sequence:{backend}", f"len:{len(case['seq'])}")
+    out.classes = (f"sequence:{backend}", f"len:{min(len(case['seq']), 6)}") + (("plain-dump-before-wire-dump",) if any(len(e) > 2 and e[2] == "validate_plain_first" for e in case["seq"]) else ())
     return out
 
 
@@ -517,8 +517,40 @@ def sequence_cases(draw, backend: str):
     targets = [draw(st.sampled_from(pool)) for _ in range(k)]
     if draw(st.booleans()):
         targets.insert(draw(st.integers(0, len(targets))), draw(st.sampled_from(others)))
-    seq = [[t, draw(wire_strategy(models()[t], 2, all_aliases=True))] for t in targets]
+    seq = [[t, draw(wire_strategy(models()[t], 2, all_aliases=True)), draw(st.sampled_from(["validate", "validate", "validate_plain_first"]))] for t in targets]
     return {"seq": seq, "backend": backend}
+
+
+def _aliased(cls: type, depth: int = 3) -> bool:
+    import inspect
+    import typing
+
+    from chuk_mcp.protocol.mcp_pydantic_base import McpPydanticBase
+
+    def walk(ann: Any, d: int) -> bool:
+        if inspect.isclass(ann) and issubclass(ann, McpPydanticBase):
+            return d > 0 and _aliased(ann, d - 1)
+        return any(walk(a, d) for a in typing.get_args(ann))
+
+    return any(f["alias"] or walk(f["annotation"], depth) for f in fields_of(cls))
+
+
+def job_dump_order(col: Collector, seed: int, tier: str, shard: int, nshards: int, n: int) -> None:
+    """in a FRESH process per backend, every model class that has an aliased member (its own or a nested model's) is
+    first looked at under its Python names (a plain model_dump()) and only then serialised for the wire"""
+    names = [t for t in sorted(models()) if _aliased(models()[t])]
+    chunks = [names[i : i + 12] for i in range(0, len(names), 12)]
+    for ci, chunk in enumerate(chunks):
+        if ci % nshards != shard:
+            continue
+        for backend in ("fallback", "pydantic"):
+            for order in (chunk, list(reversed(chunk))):
+                strat = st.tuples(*[wire_strategy(models()[t], 2, all_aliases=True, extras=False) for t in order]).map(
+                    lambda ws, order=order, backend=backend: {"seq": [[t, w, "validate_plain_first"] for t, w in zip(order, ws)], "backend": backend})
+                hyp_run(col, seed * 1000 + 700 + ci, strat, check, n)
+    if shard == 0:
+        col.extra["classes_with_aliased_members"] = len(names)
+        col.exhaustive_parts.append(f"all {len(names)} model classes with an aliased member: plain dump before the first wire dump, fresh process, both backends, two class orders")
 
 
 def job_sequences(col: Collector, seed: int, tier: str, shard: int, n: int) -> None:
@@ -562,13 +594,13 @@ def job_open_enums(col: Collector, seed: int, tier: str) -> None:
     col.exhaustive_parts.append(f"open enumerations: every known word and 4 other spellings of it for every such field ({n} objects)")
 
 
-JOBS = {"models": job_models, "serialisers": job_serialisers, "sequences": job_sequences, "open_enums": job_open_enums}
+JOBS = {"dump_order": job_dump_order, "models": job_models, "serialisers": job_serialisers, "sequences": job_sequences, "open_enums": job_open_enums}
 
 
 def jobs(tier: str):
     if tier == "quick":
-        return [("models", {"shard": s, "nshards": 8, "n": 60}) for s in range(8)] + [("serialisers", {"shard": s, "nshards": 4, "n": 120}) for s in range(4)] + [("sequences", {"shard": s, "n": 10}) for s in range(4)] + [("open_enums", {})]
-    return [("models", {"shard": s, "nshards": 8, "n": 1500}) for s in range(8)] + [("serialisers", {"shard": s, "nshards": 4, "n": 2500}) for s in range(4)] + [("sequences", {"shard": s, "n": 300}) for s in range(4)] + [("open_enums", {})]
+        return [("models", {"shard": s, "nshards": 8, "n": 60}) for s in range(8)] + [("serialisers", {"shard": s, "nshards": 4, "n": 120}) for s in range(4)] + [("sequences", {"shard": s, "n": 10}) for s in range(4)] + [("open_enums", {})] + [("dump_order", {"shard": s, "nshards": 2, "n": 2}) for s in range(2)]
+    return [("models", {"shard": s, "nshards": 8, "n": 1500}) for s in range(8)] + [("serialisers", {"shard": s, "nshards": 4, "n": 2500}) for s in range(4)] + [("sequences", {"shard": s, "n": 300}) for s in range(4)] + [("open_enums", {})] + [("dump_order", {"shard": s, "nshards": 4, "n": 25}) for s in range(4)]
 
 
 def shrink(signature: str, seed: int):
